@@ -474,3 +474,45 @@ package fpgo
 //@   invariant keys-unchanged: forallv(x, has(SSI(result), x) == has(SSI(streamSetSelf), x))
 //@   invariant untouched-keys-copied: forallv(x, has(SSI(result), x) && (!SUBTRACTSI(x) || !_visited(x)) ==> (untyped(SSI(streamSetSelf)[x]) ==> untyped(SSI(result)[x])) && (!untyped(SSI(streamSetSelf)[x]) ==> isptr(SSI(result)[x], StreamForInterfaceDef) && STI(result, x) != nil && fresh(STI(result, x)) && fresh(*STI(result, x)) && seqeq(*STI(result, x), *STI(streamSetSelf, x))))
 //@   invariant subtracted: forallv(x, has(SSI(result), x) && SUBTRACTSI(x) && _visited(x) ==> isptr(SSI(result)[x], StreamForInterfaceDef) && STI(result, x) != nil && fresh(STI(result, x)) && (untyped(SSI(streamSetSelf)[x]) ==> len(*STI(result, x)) == 0) && (!untyped(SSI(streamSetSelf)[x]) ==> len(*STI(result, x)) <= len(*STI(streamSetSelf, x)) && forall(j, 0, len(*STI(result, x)), CONTAINS(*STI(streamSetSelf, x), (*STI(result, x))[j]) && !CONTAINS(*STI(input, x), (*STI(result, x))[j]))))
+
+// FilterNotNil: Filter with "is present" (C01's notion of absence) as the predicate
+//@ func (StreamDef).FilterNotNil
+//@   prop C04,C05
+//@   ghost g (Array Int Int)
+//@   ghost pos (Array Int Int)
+//@   ghostset g = Filter_g
+//@   ghostset pos = Filter_pos
+//@   requires streamSelf != nil
+//@   ensures owned: r0 != nil && fresh(r0) && fresh(*r0)
+//@   ensures sub: forall(j, 0, len(*r0), 0 <= g[j] && g[j] < len(*streamSelf) && (*r0)[j] == (*streamSelf)[g[j]] && !absent((*streamSelf)[g[j]]))
+//@   ensures mono: forall(j, 0, len(*r0), forall(l, 0, j, g[l] < g[j]))
+//@   ensures all: forall(k, 0, len(*streamSelf), !absent((*streamSelf)[k]) ==> 0 <= pos[k] && pos[k] < len(*r0) && g[pos[k]] == k)
+//@   ensures same: SV_SAME(streamSelf)
+//@ twin (StreamDef).FilterNotNil (StreamForInterfaceDef).FilterNotNil prop C04,C05
+
+// Extend: a fresh stream holding the receiver's items followed by the items of every non-nil argument, in argument order
+// (off[k] = where argument k's items start); with no arguments the receiver itself.  Nothing that existed is written.
+//@ func (StreamDef).Extend
+//@   prop C04,C05
+//@   ghost off (Array Int Int)
+//@   ghostinit off = store(off, 0, len(*streamSelf))
+//@   requires streamSelf != nil
+//@   ensures nothing-to-add: len(streams) == 0 ==> r0 == streamSelf
+//@   ensures owned: len(streams) > 0 ==> r0 != nil && fresh(r0) && fresh(*r0)
+//@   ensures layout: len(streams) > 0 ==> off[0] == len(*streamSelf) && forall(k, 0, len(streams), off[k+1] == off[k] + ite(streams[k] == nil, 0, len(*streams[k]))) && len(*r0) == off[len(streams)]
+//@   ensures own-items-first: len(streams) > 0 ==> forall(i, 0, len(*streamSelf), (*r0)[i] == (*streamSelf)[i])
+//@   ensures then-each-argument: len(streams) > 0 ==> forall(k, 0, len(streams), streams[k] != nil ==> forall(j, 0, len(*streams[k]), (*r0)[off[k]+j] == (*streams[k])[j]))
+//@   ensures same: SV_SAME(streamSelf)
+//@ func (StreamDef).Extend loop 0
+//@   ghostset off = store(off, _i+1, off[_i] + ite(streams[_i] == nil, 0, len(*streams[_i])))
+//@   invariant total: totalLen == off[_i] && mineLen == len(*streamSelf) && mine == *streamSelf && off[0] == len(*streamSelf) && forall(k, 0, _i, off[k+1] == off[k] + ite(streams[k] == nil, 0, len(*streams[k])) && off[k] <= off[k+1]) && off[0] <= off[_i] && forall2(a, 0, _i+1, b, 0, _i+1, a <= b ==> off[a] <= off[b])
+//@ func (StreamDef).Extend loop 1
+//@   invariant mono: true && forall2(a, 0, len(streams)+1, b, 0, len(streams)+1, a <= b ==> off[a] <= off[b])
+//@   invariant copied: fresh(newOne) && len(newOne) == totalLen && mine == *streamSelf && forall(i, 0, _i, newOne[i] == mine[i]) && totalLen == off[len(streams)] && off[0] == len(*streamSelf) && forall(k, 0, len(streams), off[k+1] == off[k] + ite(streams[k] == nil, 0, len(*streams[k])) && off[k] <= off[k+1])
+//@ func (StreamDef).Extend loop 2
+//@   invariant mono: true && forall2(a, 0, len(streams)+1, b, 0, len(streams)+1, a <= b ==> off[a] <= off[b])
+//@   invariant placed: fresh(newOne) && len(newOne) == off[len(streams)] && mine == *streamSelf && totalIndex == off[_i] && off[0] == len(*streamSelf) && forall(k, 0, len(streams), off[k+1] == off[k] + ite(streams[k] == nil, 0, len(*streams[k])) && off[k] <= off[k+1]) && forall(i, 0, len(mine), newOne[i] == mine[i]) && forall(k, 0, _i, streams[k] != nil ==> forall(j, 0, len(*streams[k]), newOne[off[k]+j] == (*streams[k])[j]))
+//@ func (StreamDef).Extend loop 3
+//@   invariant mono: true && forall2(a, 0, len(streams)+1, b, 0, len(streams)+1, a <= b ==> off[a] <= off[b]) && _i2 < len(streams)
+//@   invariant placing: fresh(newOne) && len(newOne) == off[len(streams)] && target == *stream && targetLen == len(target) && totalIndex == off[_i2] && stream == streams[_i2] && off[0] == len(*streamSelf) && forall(k, 0, len(streams), off[k+1] == off[k] + ite(streams[k] == nil, 0, len(*streams[k])) && off[k] <= off[k+1]) && forall(i, 0, len(mine), newOne[i] == mine[i]) && forall(k, 0, _i2, streams[k] != nil ==> forall(j, 0, len(*streams[k]), newOne[off[k]+j] == (*streams[k])[j])) && forall(j, 0, _i, newOne[totalIndex+j] == target[j]) && mine == *streamSelf
+//@ twin (StreamDef).Extend (StreamForInterfaceDef).Extend prop C04,C05
